@@ -14,6 +14,8 @@ pub struct RunResult {
     pub decisions: u64,
     pub sim_ms: u64,
     pub trace: Vec<String>,
+    /// scheduling choices as recorded (engines with a chooser); stored into the replay plan
+    pub choices: Vec<String>,
 }
 
 pub struct PropSpec {
@@ -81,6 +83,36 @@ pub const PROPS: &[PropSpec] = &[
         thorough_runs: 400_000,
         rule: "TTL-heavy histories without imports into TTL topics, ephemeral appends with a tail follower attached, settle points after full collector drains; non-trivial = the collector did work and a settle ran; distinct = distinct trace hash",
     },
+    PropSpec {
+        id: "C02",
+        engine: "e2",
+        classes: &["append-only/", "follow/order", "follow/duplicate"],
+        nontrivial: &[&["overlap:writers"], &["poll"]],
+        must_reach: &["overlap:writers", "poll", "win:live", "site:append.id", "site:append.committed", "site:append.broadcast"],
+        quick_runs: 12_000,
+        thorough_runs: 600_000,
+        rule: "2-4 writer threads (1-4 appends each, stored and ephemeral, several contexts) parked and released at the id-assigned / committed / broadcast points inside append, interleaved by the seeded chooser (uniform, burst, PCT, starvation) with resuming and full-scan pollers per scope and 0-2 followers; non-trivial = two writers were inside append at the same time and a poll ran; distinct = distinct hash of the decision sequence",
+    },
+    PropSpec {
+        id: "C03",
+        engine: "e2",
+        classes: &["follow/gap", "follow/missing", "follow/duplicate", "follow/order", "follow/unexpected", "follow/fields", "follow/threshold", "follow/closed-early", "panic"],
+        nontrivial: &[&["win:subscribed", "win:pre-scan", "win:scanning", "win:scanned", "win:done-pending", "win:live-start"]],
+        must_reach: &["win:subscribed", "win:pre-scan", "win:scanning", "win:scanned", "win:done-pending", "win:live-start", "win:live", "threshold:seen"],
+        quick_runs: 12_000,
+        thorough_runs: 600_000,
+        rule: "followers (start: beginning / last-id / tail; scope: all / one context; read capacity 1..100) started at a scheduler-chosen moment while 1-3 writers append stored and ephemeral frames; the reader's subscribe / scan / deliver / threshold / done / live-receive steps and the writers' append steps are interleaved by the seeded chooser; non-trivial = an append began while the reader was between subscribe and live; distinct = distinct decision-sequence hash",
+    },
+    PropSpec {
+        id: "C11",
+        engine: "e2",
+        classes: &["follow/limit", "follow/tail-history", "follow/foreign-synthetic", "follow/unexpected-threshold", "follow/synthetic-stored", "follow/zombie-heartbeat", "follow/nofollow-open", "follow/gap", "follow/closed-early"],
+        nontrivial: &[&["limit:reached", "lag:possible", "pulse:seen", "win:live"]],
+        must_reach: &["limit:reached", "limit:all-history", "limit:split-history-live", "lag:possible", "lag:cut-off", "pulse:seen", "tick"],
+        quick_runs: 12_000,
+        thorough_runs: 600_000,
+        rule: "followers with limit n relative to the history size (n-1, n, n+1), tail, last-id, context, heartbeat and plain non-follow reads; broadcast capacity 2..1024 and read capacity 1..100 as knobs, consumer and live task starved by policy so the follower falls behind; clock ticks fire heartbeats; non-trivial = a limit was reached, a lag became possible, a pulse was delivered or an append raced the live phase; distinct = distinct decision-sequence hash",
+    },
 ];
 
 pub fn spec(prop: &str) -> Option<&'static PropSpec> {
@@ -103,6 +135,7 @@ pub fn gen_plan(spec: &PropSpec, thorough: bool, seed: u64) -> Value {
             let cfg = crate::e3::GenCfg::for_prop(spec.id, thorough);
             serde_json::to_value(crate::e3::generate(seed, &cfg)).unwrap()
         }
+        "e2" => serde_json::to_value(crate::e2::generate(seed, spec.id, thorough)).unwrap(),
         _ => Value::Null,
     }
 }
@@ -110,6 +143,11 @@ pub fn gen_plan(spec: &PropSpec, thorough: bool, seed: u64) -> Value {
 pub fn exec_plan(engine: &str, plan: &Value, tag: &str) -> RunResult {
     match engine {
         "e3" => crate::e3::exec_value(plan, tag),
+        "e2" => {
+            let (mut r, choices) = crate::e2::exec_value(plan, tag);
+            r.choices = choices;
+            r
+        }
         _ => RunResult {
             violation: None,
             harness: Some(format!("unknown engine {}", engine)),
@@ -117,6 +155,7 @@ pub fn exec_plan(engine: &str, plan: &Value, tag: &str) -> RunResult {
             decisions: 0,
             sim_ms: 0,
             trace: vec![],
+            choices: vec![],
         },
     }
 }
